@@ -905,12 +905,67 @@ def resolve_fields(W, ev, t):
     return t
 
 
+def field_under_assumption(W, ev, t):
+    """`t` = field(x, F) where ev assumes a value for another field G of the same object (`self.version == V`): the value every constructor
+    consistent with that assumption gives to F (a constructor that takes G as a parameter is evaluated with that parameter bound to the
+    assumed value).  Used for values fixed at construction from the version, e.g. a cached `hash_len`."""
+    if not (isinstance(t, tuple) and t and t[0] == "field"):
+        return None
+    base, F = t[1], t[2]
+    owner = None
+    if isinstance(base, tuple) and base and base[0] == "param":
+        fn = W.prog.fns.get(base[1])
+        if fn is not None and fn.impl_self and base[2] == 1:
+            owner = fn.impl_self
+    if owner is None:
+        return None
+    known = {k[2]: v for k, v in (getattr(ev, "assume", None) or {}).items() if isinstance(k, tuple) and k and k[0] == "field" and k[1] == base and k[2] != F}
+    if not known:
+        return None
+    vals = []
+    for (cfn, bb, idx, fields) in W.ctor_fields(owner):
+        if F not in fields:
+            return None
+        binds = {}
+        consistent = True
+        for G, aval in known.items():
+            g = fields.get(G)
+            if g is None:
+                continue
+            g = W.expand(g)
+            if g == aval:
+                continue
+            if isinstance(g, tuple) and g and g[0] == "param" and g[1] == cfn.path:
+                binds[g[2]] = aval
+            elif isinstance(g, tuple) and g and g[0] in ("enum", "int"):
+                consistent = False      # this constructor builds a different variant
+            else:
+                return None
+        if not consistent:
+            continue
+        # evaluate the construction with dead arms removed (a constant version decides a `match version` in an inlined constructor helper)
+        e2 = values.Ev(W.prog, cfn, binds=binds)
+        e2.live()
+        agg = e2.rvalue(cfn.blocks[bb].stmts[idx]["rv"], (bb, idx))
+        if not (isinstance(agg, tuple) and agg[0] == "agg" and len(agg) > 3 and agg[3] and F in agg[3]):
+            return None
+        vals.append(agg[2][agg[3].index(F)])
+    uniq = []
+    for v in vals:
+        if v not in uniq:
+            uniq.append(v)
+    return uniq[0] if len(uniq) == 1 else None
+
+
 def intval(W, ev, t, depth=0):
     """Integer value of a term under ev's assumptions (inlines crate-local calls, knows Algorithm::output_len)."""
     if not isinstance(t, tuple) or not t or depth > 8:
         return None
     if t[0] == "int":
         return t[1]
+    if t[0] == "field":
+        r = field_under_assumption(W, ev, t)
+        return intval(W, ev, r, depth + 1) if r is not None and r != t else None
     if t[0] == "cast":
         return intval(W, ev, t[3], depth + 1)
     if t[0] == "phi":
@@ -1332,6 +1387,12 @@ def outparam_wrapper_value(W, fn, ev, obj, use_bb):
         elif not clears and len(inits) == 1 and {l["header"] for l in fn.in_loop(inits[0][0])} == loops_use and \
                 is_call(inits[0][1]) and callee_name(inits[0][1][1]) in ("new", "with_capacity"):
             emptied = True      # a fresh buffer per iteration
+        if not emptied and not clears:
+            # the helper empties the buffer itself before filling it: a clear() inside the inlined region that precedes every append there
+            inreg = [(b, nm) for (b, nm) in muts if b in region]
+            rc = [b for (b, nm) in inreg if nm == "clear" or (nm == "truncate" and ev.call_args(b)[1] == ("int", 0))]
+            if len(rc) == 1 and all(fn.dominates(rc[0], b) for (b, nm) in inreg if b != rc[0]):
+                emptied = True
         if not emptied:
             continue
         args = tuple(t for i, t in enumerate(a) if i != outpos[0])
@@ -1389,3 +1450,52 @@ def array_copy_source(W, obj):
     if values.strip_payload(a[0]) != obj:
         return None     # only part of the array is written
     return a[1]
+
+
+def immutable_field_ints(W, adt, field):
+    """Integer values a private field can hold when it is only ever set by the constructors of its type (never assigned or mutably borrowed
+    afterwards) and every constructor gives it a value that evaluates to an integer: sorted list, else None."""
+    P = W.prog
+    cache = W.__dict__.setdefault("_imm_field_ints", {})
+    if (adt, field) in cache:
+        return cache[(adt, field)]
+    cache[(adt, field)] = None
+    a = P.adts.get(adt)
+    if a is None or not a.get("variants"):
+        return None
+    fl = [x for x in a["variants"][0]["fields"] if x["name"] == field]
+    if not fl or fl[0]["vis"] == "pub":
+        return None
+    for fn in P.fns.values():
+        if fn.derived:
+            continue
+        for bl in fn.blocks:
+            for st in bl.stmts:
+                if st["k"] != "assign":
+                    continue
+                pj = [e for e in st["dst"].get("p", []) if isinstance(e, dict) and "f" in e]
+                if pj and pj[-1].get("name") == field and pj[-1].get("adt") == adt:
+                    return None
+                rv = st["rv"]
+                if rv["k"] in ("ref", "rawptr") and (rv.get("mut") or rv["k"] == "rawptr"):
+                    if any(isinstance(e, dict) and e.get("name") == field and e.get("adt") == adt for e in rv["place"].get("p", [])):
+                        return None
+    vals = set()
+    ctors = W.ctor_fields(adt)
+    if not ctors:
+        return None
+    for (cfn, bb, idx, fields) in ctors:
+        e2 = values.Ev(P, cfn)
+        e2.live()
+        agg = e2.rvalue(cfn.blocks[bb].stmts[idx]["rv"], (bb, idx))
+        if not (isinstance(agg, tuple) and agg[0] == "agg" and len(agg) > 3 and agg[3] and field in agg[3]):
+            return None
+        t = agg[2][agg[3].index(field)]
+        alts = t[1] if isinstance(t, tuple) and t and t[0] == "phi" else (t,)
+        for x in alts:
+            n = intval(W, e2, x)
+            if n is None:
+                return None
+            vals.add(n)
+    cache[(adt, field)] = sorted(vals)
+    return cache[(adt, field)]
